@@ -7,6 +7,10 @@ package scen
 // client's "routing table" is exactly the set of scripted responders chosen as
 // starting points; everything else (GetValue/SearchValue/getValues/
 // processValues/execOnMany, the local value store) is the repository's code.
+// Since wave 6 the reported set may be empty (a crawl that found nobody) and
+// the first crawl may still be running when the search is made (c04Cfg.NoPeers),
+// and in a share of the runs the validator is a scheduler-owned seam
+// (c04Cfg.SlowVal); see c04_wave6.go.
 
 import (
 	"context"
@@ -31,10 +35,13 @@ import (
 func init() {
 	sim.Register(&sim.Scenario{Prop: "C04", Name: "value-fullrt", Weight: 3, Run: func(s *sim.Sim) { c04RunValue(s, "fullrt", false) },
 		Real: []string{"fullrt.FullRT.GetValue/SearchValue/searchValueQuorum/getValues/processValues/execOnMany (fullrt/dht.go)", "fullrt.FullRT.GetClosestPeers over the crawled table", "ProtocolMessenger.GetValue (record key check)", "records.ValueStore (local record)"},
-		Stub: []string{"host.Host/network (simhost)", "pb.MessageSender (level A, simnet.Sender)", "crawler.Crawler (harness stub reporting a fixed peer set)", "remote peers (scripted responders)", "record validator (harness rank validator, time-aware)"},
+		Stub: []string{"host.Host/network (simhost)", "pb.MessageSender (level A, simnet.Sender)", "crawler.Crawler (harness stub reporting a fixed peer set, possibly empty, or still crawling)", "remote peers (scripted responders)", "record validator (harness rank validator, time-aware; in a share of the runs a scheduler-owned seam: Validate parks)"},
 		Faults: []string{"fault_rec_invalid", "fault_rec_miskeyed", "fault_rec_empty", "fault_rpc_error", "fault_cancel", "time_advance",
 			"probe_found", "probe_notfound", "probe_stream_multi", "probe_search_ended_early", "probe_local_valid", "probe_local_expired", "probe_local_expired_midsearch", "probe_peer_serves_local_bytes_valid", "probe_peer_serves_local_bytes_expired_at_start", "probe_peer_serves_local_bytes_expired_midsearch", "probe_bestknown_checked",
-			"probe_opt_offline", "probe_opt_expired", "probe_opt_offline_local_not_valid", "probe_local_never_valid", "probe_local_outlived_max_age", "probe_stamp_valid_value_held_past_requesters_max_age", "probe_stamp_valid_value_from_the_future", "probe_stamp_valid_value_unparsable"},
+			"probe_opt_offline", "probe_opt_expired", "probe_opt_offline_local_not_valid", "probe_local_never_valid", "probe_local_outlived_max_age", "probe_stamp_valid_value_held_past_requesters_max_age", "probe_stamp_valid_value_from_the_future", "probe_stamp_valid_value_unparsable",
+			"probe_key_outside_namespaces", "probe_key_outside_record_acceptable_to_unregistered_validator", "probe_key_outside_local_record",
+			"probe_no_starting_points", "probe_no_starting_points_local_valid", "probe_fullrt_crawl_found_nobody", "probe_fullrt_first_crawl_still_running",
+			"probe_slowval_validation_completed", "probe_slowval_completed_while_another_in_progress", "probe_slowval_completed_out_of_delivery_order", "probe_slowval_reply_delivered_during_validation", "probe_slowval_reply_held_back", "probe_slowval_time_passed_during_validation"},
 	})
 }
 
@@ -70,7 +77,7 @@ func c04BuildFullRT(w *c04World) error {
 	cr := &c04Crawler{s: s, h: w.host}
 	waitFrac := []float64{0.3, 0.6, 1.0}[s.Draw("wait-frac", 3)]
 	perOp := []time.Duration{5 * time.Second, 1500 * time.Millisecond, 40 * time.Second}[s.Draw("per-op", 3)]
-	dopts := append(c04Opts(w.val, w.cfg.MaxAge),
+	dopts := append(c04Opts(w.clientValidator(), w.cfg.MaxAge),
 		dht.BucketSize(w.cfg.K),
 		dht.Datastore(d),
 		dht.BootstrapPeers(), // NewFullRT calls the bootstrap-peers function unconditionally
@@ -100,6 +107,7 @@ func c04BuildFullRT(w *c04World) error {
 		},
 		stored: func(val []byte) bool { return c04StoredIn(d, val) },
 		plant:  func(key string, old []byte, m func(*recpb.Record)) bool { return c04PlantIn(d, key, old, m) },
+		dss:    c04DSS(d),
 		close: func() {
 			_ = frt.Close()
 			_ = w.host.Close()
